@@ -20,8 +20,7 @@ NOT_APPLICABLE = {
 # claimed in DESIGN.md but whose check is not built yet (kept honest in the
 # manifest until the rule module exists and passes on the tree)
 PENDING = {}
-for _p in ['C01', 'C02', 'C03', 'C04', 'C05', 'C09', 'C10',
-           'C12', 'C13', 'C15', 'C16', 'C18']:
+for _p in ['C04', 'C05', 'C09', 'C10', 'C15', 'C16', 'C18']:
     PENDING[_p] = ('not claimed yet: the static rules designed for this '
                    'property (DESIGN.md section 4) are not built yet')
 
@@ -132,3 +131,88 @@ claim('C11',
       'on CFGs, return-kind summaries), def-use checks, guard dominance, '
       'typestate',
       'DESIGN.md §4 C11')
+
+
+claim('C01',
+      'Static disposition discipline of one delivery attempt, decided over '
+      'all paths of the queue code: a typestate over Queue._attempt (relay '
+      'call raising Transient / Permanent / anything) shows every arm ends '
+      'with exactly one disposition of the right kind; who-may-call plus '
+      'guard facts for every removal of the stored message; retry '
+      'exhaustion bounces each reply group exactly once before removing, a '
+      'granted retry re-schedules and never removes; kind inference over '
+      'all relays shows no failure object can be *returned*; the kind the '
+      'queue passes to set_recipients_delivered is checked against what '
+      'each backend does with it; index-space consistency of delivered '
+      'marks; settled-set membership by disjunctive-guard path search. '
+      'Liveness (eventual delivery) is not decided.',
+      'Trusted: REMOVAL_SITES table, kinds tables, cooperative scheduling. '
+      'Known findings (genuine, recorded in known_findings.json): the three '
+      'accumulate-and-filter backends cannot store the set the queue '
+      'passes and mix two index spaces.',
+      'typestate over CFG with exception tokens, who-may-call, guard '
+      'dominance, per-iteration event counting, abstract kinds',
+      'DESIGN.md §4 C01')
+
+claim('C02',
+      'Static def-use and ordering obligations on the custody hand-over: '
+      'in both edges every failure-class test is on the loop variable of a '
+      'scan over the whole enqueue result list, that scan lies on every '
+      'path after handoff(), no decision reads a fixed position; '
+      'Queue._pool_imap joins every greenlet in every iteration and '
+      'returns only after the loop is exhausted; enqueue writes through it; '
+      'the DATA reply is sent only after the HAVE_DATA callback; '
+      'ProxyQueue keeps the relay result and tests its entries.',
+      'Trusted: gevent join()/get() semantics; the storage substrate. A '
+      'slow or failing k-th write is covered because the reply is shown to '
+      'depend on all results, not by executing it.',
+      'def-use analysis, must-event dataflow, per-iteration counting, '
+      'loop-exhaustion reachability',
+      'DESIGN.md §4 C02')
+
+claim('C03',
+      'Static obligations on the double-dispatch guard and on delivered '
+      'marks: every spawn of Queue._attempt is dominated by the '
+      'in-flight test and the mark, with no yielding call between them; '
+      'self.queued has an enumerated writer set and a de-duplicating '
+      'insert guarded against queued and active ids; marks are (at least '
+      'attempted to be) persisted before the message becomes dispatchable '
+      'again; backends are classified from their source as in-place or '
+      'accumulate-and-filter and checked for index-space consistency and '
+      'for applying the marks on every fetch, in descending order.',
+      'Trusted: cooperative scheduling (no preemption inside a region '
+      'without yielding calls), NON_YIELDING table. Known findings: '
+      'index-space mix-up in disk/redis/cloud (see known_findings.json).',
+      'guard dominance, yield-point reachability between test and mark, '
+      'who-may-write, typestate with infeasible-branch pruning',
+      'DESIGN.md §4 C03')
+
+claim('C12',
+      'Static structure of the scheduler: the lock flush() takes is shown '
+      '(held/not-held typestate over the inlined scheduler loop) never to '
+      'be held across a blocking wait; every timetable write is paired '
+      'with the id-set write; announcements go exactly once per entry '
+      'through the de-duplicating insert, which always wakes the '
+      'scheduler; re-queue order; the dropped prefix equals the dispatched '
+      'entries; dispatch is dominated by now >= timestamp and the scan '
+      'stops at the first entry not due; bounded sleep.',
+      'Trusted: insort keeps the list sorted; gevent Event semantics; '
+      'clock behaviour. Interleavings are not executed.',
+      'lock typestate, must-event pairing, per-iteration counting, guard '
+      'dominance on normalised comparisons',
+      'DESIGN.md §4 C12')
+
+claim('C13',
+      'Static obligations on bounce generation: who-may-call for _bounce '
+      'and bounce_factory; the spawn is dominated by a truthy sender of '
+      'the very envelope that is bounced; Bounce is constructed with the '
+      "constant '' sender and [envelope.sender]; _split_by_reply places "
+      'each recipient exactly once per iteration and creates a group only '
+      'on the exhausted-search path without an equal reply; both consumers '
+      'call _perm_fail exactly once per group; the bounce goes to '
+      'bounce_queue.enqueue and only when truthy.',
+      'Trusted: Reply.__eq__ as the grouping relation. Rendered content is '
+      'not decided.',
+      'who-may-call, guard dominance, per-iteration event counting, '
+      'typestate over the search loop',
+      'DESIGN.md §4 C13')
